@@ -94,6 +94,29 @@ def _value_shapes():
     ]
 
 
+# Function NAMES the value parser treats in a way of its own: the IE filter functions (cssutils.css.value.MSValue - its arguments are parsed by a looser production than those of an
+# ordinary function).  A url() among the arguments of such a function is a URL of the sheet like any other.  (progid:DXImageTransform.Microsoft.X(...) values belong to the same
+# class of the parser, but the unchanged tree does not read them at all - the declaration is dropped - so they hold no URL to enumerate: outside the domain.)
+SPECIAL_FUNCTIONS = ('expression', 'alpha', 'blur', 'chroma', 'dropshadow', 'fliph', 'flipv', 'glow', 'gray', 'invert', 'mask', 'shadow', 'wave', 'xray')
+
+
+def _named_function_shapes():
+    """[(label, function(fresh) -> value)] for every special function name N: url() as the only argument, two url() arguments, N inside an ordinary function, an ordinary
+    function inside N, N inside another special function - each next to a URL outside (document order across the levels)"""
+    out = []
+    one = ('number', '1')
+    for k, name in enumerate(SPECIAL_FUNCTIONS):
+        other = SPECIAL_FUNCTIONS[(k + 5) % len(SPECIAL_FUNCTIONS)]
+        out += [
+            ('named/%s/single' % name, lambda f, N=name: G.V(('function', N, G.V(_u(f()))), _u(f()))),
+            ('named/%s/two' % name, lambda f, N=name: G.V(_u(f()), ('function', N, G.V(_u(f()), ',', one, ',', _u(f()))))),
+            ('named/%s/in-function' % name, lambda f, N=name: G.V(('function', 'f', G.V(_u(f()), ',', ('function', N, G.V(_u(f()))))), _u(f()))),
+            ('named/%s/function-inside' % name, lambda f, N=name: G.V(('function', N, G.V(('function', 'g', G.V(_u(f()))), ',', _u(f()))), _u(f()))),
+            ('named/%s/in-named' % name, lambda f, N=name, M=other: G.V(('function', M, G.V(('function', N, G.V(_u(f()), ',', _u(f()))), ',', _u(f()))))),
+        ]
+    return out
+
+
 URL_FORMS = ['x.png', 'a b.png', 'http://h/p?q=1&r=2#f', '', "o'k", 'p(1)', 'data:image/png;base64,AA==', '../up/x.png', '#f', '/abs/x.png', '//h2/x.png', 'a%20b.png', 'é.png', 'x.png?v=1#f']
 
 # path segments that LOOK like the dot segments '.' and '..' but are ordinary names: a name beginning with one dot (dot file / dot directory), beginning with two dots,
@@ -161,6 +184,11 @@ def url_sheets(tier, seed):
                     label += ',' + second[0]
                 out.append(('%s/%s/imports%d' % (label, sl, len(imp)), tuple(imp) + tuple(rules)))
         k += 1
+    # the special function names: every shape in every single context (one @import in front)
+    for cl, c in ctxs:
+        for sl, shape in _named_function_shapes():
+            n[0] = 0
+            out.append(('urls/%s/%s/imports1' % (cl, sl), tuple(imports[1]) + (c(items(shape), items(shapes[0][1])),)))
     for form in URL_FORMS + dot_forms():
         out.append(('urlform/%r' % form, (G.Import('i.css'), G.Style([G.Sel(G.C('a'))], [G.Decl('background', G.V(_u(form), _u('k.png')))]))))
         if form == '':
@@ -246,6 +274,24 @@ def _tag(u):
     return 'R/' + u
 
 
+def _text_urls(text):
+    """the URLs a style sheet TEXT holds, read token by token: targets of the @import rules first, then every URI token in document order"""
+    from cssutils.tokenize2 import Tokenizer
+    from cssutils import helper
+    imports, urls = [], []
+    after_import = False
+    for t in Tokenizer().tokenize(text):
+        ty, v = t[0], t[1]
+        if ty in ('S', 'COMMENT'):
+            continue
+        if after_import and ty in ('STRING', 'URI'):
+            imports.append(helper.stringvalue(v) if ty == 'STRING' else helper.urivalue(v))
+        elif ty == 'URI':
+            urls.append(helper.urivalue(v))
+        after_import = ty == 'IMPORT_SYM'
+    return imports + urls
+
+
 def _parse_a(text):
     cssutils = _quiet()
     f = Fetcher({})
@@ -287,8 +333,13 @@ def check_urls_sheet(label, sheet):
     try:
         dom = _parse_a(text)
         before_p = gen.project(dom, lenient=True)
-        if before_p != gen.canon(sheet):
-            return 0, [('skipped', label, None)]   # the text does not parse to the tree it was rendered from: a C02 matter (recorded there)
+        modelled = before_p == gen.canon(sheet)
+        if not modelled:
+            # the text does not parse to the tree it was rendered from: a C02 matter (recorded there) - unless the sheet demonstrably HOLDS the URLs: its serialisation, read
+            # token by token, has exactly the expected URI tokens / @import targets in the expected order.  Then enumeration and the replacer calls are still judged (the clauses
+            # that compare DOM projections are not: the projection has no model of such a value)
+            if _text_urls(dom.cssText.decode('utf-8')) != exp:
+                return 0, [('skipped', label, None)]
         # (a) enumeration
         n += 1
         got = list(cssutils.getUrls(dom))
@@ -302,6 +353,16 @@ def check_urls_sheet(label, sheet):
             fail(CL_IDENTITY, 'cssText %r -> %r' % (before[:200], dom.cssText[:200]))
         elif gen.project(dom, lenient=True) != before_p:
             fail(CL_IDENTITY, gen.diff(gen.project(dom, lenient=True), before_p))
+        if not modelled:
+            n += 1
+            dom = _parse_a(text)
+            calls = []
+            cssutils.replaceUrls(dom, lambda u: (calls.append(u), _tag(u))[1])
+            if sorted(calls) != sorted(exp):
+                fail(CL_ONCE, 'replacer called with %r, expected (any order) %r' % (calls, exp), attribute(calls, sort=True))
+            elif _text_urls(dom.cssText.decode('utf-8')) != [_tag(u) for u in exp]:
+                fail(CL_ONLY, 'URLs of the serialised sheet %r, expected %r' % (_text_urls(dom.cssText.decode('utf-8')), [_tag(u) for u in exp]))
+            return n, fails
         # (c) recording + tagging replacer
         n += 1
         dom = _parse_a(text)
@@ -530,14 +591,20 @@ MEDIA = {
 BENIGN_URLS = ('img/%s.png', '../up/%s.png', '/abs/%s.png', 'http://cdn/%s.png', 'data:image/png;base64,AA==')
 
 
-def fn_value(depth, n='k'):
-    """a value with url() at every function level 1..depth and one outside: f1(url(img/n-in1.png), f2(url(img/n-in2.png), ...)) url(n-out.png)"""
+def fn_value(depth, n='k', name=None):
+    """a value with url() at every function level 1..depth and one outside: f1(url(img/n-in1.png), f2(url(img/n-in2.png), ...)) url(n-out.png);
+    with name (one of SPECIAL_FUNCTIONS) the functions of the odd levels carry special names: name(url(..), f2(url(..), other(url(..)))) url(..)"""
     inner = None
+    if name is not None:
+        n = '%s-%s' % (n, name)
     for lvl in range(depth, 0, -1):
         parts = [_u('img/%s-in%d.png' % (n, lvl))]
         if inner is not None:
             parts += [',', inner]
-        inner = ('function', 'f%d' % lvl, G.V(*parts))
+        fname = 'f%d' % lvl
+        if name is not None and lvl % 2:
+            fname = SPECIAL_FUNCTIONS[(SPECIAL_FUNCTIONS.index(name) + 5 * (lvl // 2)) % len(SPECIAL_FUNCTIONS)]
+        inner = ('function', fname, G.V(*parts))
     return G.V(inner, _u('%s-out.png' % n))
 
 
@@ -545,8 +612,8 @@ FN_DEPTHS = (1, 2, 3)
 
 
 def body(kind, n, urls=BENIGN_URLS):
-    """the own rules of a virtual sheet named n; an entry ('FN', depth) of urls stands for fn_value(depth, n)"""
-    decls = [G.Decl('x%d' % i, fn_value(t[1], n) if isinstance(t, tuple) else G.V(_u(t % n if '%s' in t else t))) for i, t in enumerate(urls)]
+    """the own rules of a virtual sheet named n; an entry ('FN', depth) / ('FN', depth, special function name) of urls stands for fn_value(depth, n[, name])"""
+    decls = [G.Decl('x%d' % i, fn_value(t[1], n, *t[2:]) if isinstance(t, tuple) else G.V(_u(t % n if '%s' in t else t))) for i, t in enumerate(urls)]
     st = G.Style([G.Sel(G.C(None, ('class', n)))], decls)
     st2 = G.Style([G.Sel(G.C(n))], [G.Decl('top', G.V(('number', '0')))])
     if kind == 'style':
@@ -906,7 +973,7 @@ def vfs_single(tier):
 DOT_LOCS = ('dotdir', 'dotfile', 'dots-sibling')
 CHAIN_LOCS = ('same', 'child', 'parent', 'sibling', 'rootrel', 'otherhost')
 CHAIN_MEDIA = ('none', 'screen')
-CHAIN_URLS = BENIGN_URLS + (('FN', 2), '.%s.png', '.d/..%s')   # (the last two: dot-like last segments, re-based once per edge)
+CHAIN_URLS = BENIGN_URLS + (('FN', 2), '.%s.png', '.d/..%s', ('FN', 1, 'mask'))   # (dot-like last segments, re-based once per edge; the last: url() inside a special function)
 
 
 def vfs_chains(tier, seed):
@@ -970,6 +1037,9 @@ def vfs_urlforms(tier):
             out.append(('urlform/%s/dot-like-last-segment-after-%r' % (loc, p), node('m', 'style', [(loc, 'none', node('a', 'style', urls=tuple(dot_forms(p)) + ('k.png',)))])))
         for d in FN_DEPTHS:
             out.append(('urlform/%s/function-depth%d' % (loc, d), node('m', 'style', [(loc, 'none', node('a', 'style', urls=(('FN', d),)))])))
+        # url() among the arguments of every special function name: one imported sheet holding one value per name (function-inside form: name(url, f2(url)) url), and one
+        # three levels deep (special name inside an ordinary function inside a special name)
+        out.append(('urlform/%s/special-function-names' % loc, node('m', 'style', [(loc, 'none', node('a', 'style', urls=tuple(('FN', 2, nm) for nm in SPECIAL_FUNCTIONS) + (('FN', 3, 'mask'), 'k.png')))])))
     return out
 
 
@@ -1398,7 +1468,9 @@ def urls_and_replacement(ctx):
             'target (among them %d with a dot-like last segment - a name beginning with one / two dots, three dots, a name ending in a dot, the dot segments - behind no prefix / a directory / ../ / a dot '
             'directory, as written / with trailing slash / with query and fragment); every sheet of bounded/gen.py holding a URL; per sheet: getUrls, identity replacer, recording+tagging replacer, ignoreImportRules=True, the CSSStyleDeclaration overload; '
             'oracle = the URL list of the abstract sheet (gen.urls order: imports, then document order); distinct = sheet shape; the 6 value shapes: one URL, two URLs, URLs inside function arguments, mixed, '
-            'url() two function levels deep (first argument of the inner function) next to URLs of levels 1 and 0, url() at levels 0, 1, 2, 3 in one value' % (len(URL_FORMS) + len(dot_forms()), len(dot_forms())),
+            'url() two function levels deep (first argument of the inner function) next to URLs of levels 1 and 0, url() at levels 0, 1, 2, 3 in one value; plus the function NAME as an axis: for each of the %d names '
+            'the value parser reads by a production of its own (the IE filter functions %s) 5 shapes - url() as its only argument, two url() arguments, the function inside an ordinary one, an ordinary one inside it, '
+            'inside another special one, each next to a URL outside - in each of the 8 contexts (progid: values are not read at all by the unchanged tree and hold no URL)' % (len(URL_FORMS) + len(dot_forms()), len(dot_forms()), len(SPECIAL_FUNCTIONS), ', '.join(SPECIAL_FUNCTIONS)),
             '%d sheets (%s)' % (len(sheets), 'pairs of contexts thinned to every 2nd shape / 3rd import variant' if ctx.tier == 'quick' else 'all pairs of contexts x shapes x import variants'),
             [{'label': sheets[5][0], 'text': gen.render(sheets[5][1])}], t0)
 
@@ -1433,9 +1505,9 @@ def flattening(ctx):
             'grandparent directory, root-relative, scheme-relative, absolute, other host, scheme-relative other host, a dot directory, a dot file, a directory named ... below the parent) x %d media (none, all, one type, a list, a media query) x %d target bodies + missing target; '
             '(chain) import chains of depth 2-%d with every edge in one of %d locations x media on/off (%s); (branch) root -> [A -> [C], B] with unwrappable bodies '
             '(@font-face, @namespace, @media) and missing targets at every place x media on every edge; (urlform) every URL form in an imported sheet, the %d URLs with a dot-like last segment (.h.png, ..u.png, ..., k., ., .. behind no prefix / i/ / ../ / .d/, as written / with trailing slash / with query and fragment; one imported sheet per prefix), '
-            'and url() at function depth 1, 2, 3 (one URL per level), x every import location; every sheet of a chain holds url() values 1 and 2 function levels deep and two URLs with a dot-like last segment; (cycle) self import, 2- and 3-cycles, '
+            'url() at function depth 1, 2, 3 (one URL per level), and url() among the arguments of each of the %d special function names (IE filter functions: name(url, f(url)) url per name, one value three levels deep), x every import location; every sheet of a chain holds url() values 1 and 2 function levels deep, one inside mask() and two URLs with a dot-like last segment; (cycle) self import, 2- and 3-cycles, '
             'a diamond; each run through resolveImports, csscombine(url=, minify=True) and csscombine(cssText=, href=, minify=False); oracle = expand() of this module (urljoin for every URL); '
-            'distinct = file system' % (ROOT, len(LOCS), len(MEDIA), len(BODIES), 3 if ctx.tier == 'quick' else 4, len(CHAIN_LOCS), 'depth 2 complete, depth 3: pairwise + seeded sample' if ctx.tier == 'quick' else 'depth 2 over all %d locations x %d media (pairs with a dot-name location: media on / off), depths 3 and 4 complete' % (len(LOCS), len(MEDIA)), len(dot_forms())),
+            'distinct = file system' % (ROOT, len(LOCS), len(MEDIA), len(BODIES), 3 if ctx.tier == 'quick' else 4, len(CHAIN_LOCS), 'depth 2 complete, depth 3: pairwise + seeded sample' if ctx.tier == 'quick' else 'depth 2 over all %d locations x %d media (pairs with a dot-name location: media on / off), depths 3 and 4 complete' % (len(LOCS), len(MEDIA)), len(dot_forms()), len(SPECIAL_FUNCTIONS)),
             '%d file systems: %s' % (len(specs), ', '.join('%s %d' % kv for kv in sorted(counts.items()))),
             [{'label': specs[100][0], 'files': {u: gen.render(s) for u, s in _build(specs[100][1]).items()}}], t0)
 
